@@ -280,6 +280,12 @@ impl WorldA {
                             if self.fam == Fam::Multi {
                                 obs.violate("C11", "healthy-client-starved", super::model::kind_name(c.cfg.kind), format!("conn {} dir {} ch {}", i, d, k));
                             }
+                            if self.fam == Fam::Hostile {
+                                // C06: whatever hostile input did to other connections, this one (never fed hostile bytes,
+                                // both ends alive) keeps working
+                                obs.count("oracle.C06.others_keep_working");
+                                obs.violate("C06", "healthy-connection-stalled-beside-hostile-one", super::model::kind_name(c.cfg.kind), format!("conn {} dir {} ch {}: {} messages missing after {} heal ticks", i, d, k, missing, bound[i]));
+                            }
                             // C08: the heal phase hands over everything that is sent, so a packet the peer still has never been
                             // handed means the sender went silent on it before the peer had it
                             if c.msgs.iter().any(|m| m.obtained == 0 && !m.released && m.handed.iter().any(|h| *h == 0)) {
